@@ -143,6 +143,18 @@ fn validity_str(v: DataLengthValidity) -> &'static str {
 
 /// `lenlimits <vi> <len> => <validity> <is_err> <err_opt> <err_cons> <MIN> <MIN_CONSERVATIVE> <MAX>`
 pub fn stream_limits(out: &mut impl Write, seed: u64, budget: usize) {
+    // published constants of every variant, and the aliases: `consts <vi> => buckets bytes str str-2 aliases`
+    for vi in 0..5 {
+        with_variant!(vi, T => {
+            use tlsh::FuzzyHashType;
+            let alias_ok = std::any::TypeId::of::<tlsh::Tlsh>() == std::any::TypeId::of::<tlsh::hashes::Normal>()
+                && std::any::TypeId::of::<tlsh::TlshGenerator>() == std::any::TypeId::of::<Generator<tlsh::hashes::Normal>>()
+                && std::any::TypeId::of::<tlsh::TlshGeneratorFor<T>>() == std::any::TypeId::of::<Generator<T>>()
+                && std::any::TypeId::of::<<Generator<T> as tlsh::GeneratorType>::Output>() == std::any::TypeId::of::<T>();
+            writeln!(out, "consts {} => {} {} {} {} {}", vi, T::NUMBER_OF_BUCKETS, T::SIZE_IN_BYTES, T::LEN_IN_STR,
+                     T::LEN_IN_STR_EXCEPT_PREFIX, alias_ok as u8).unwrap();
+        });
+    }
     let mut rng = Rng::new(seed, 31);
     let mut lens: Vec<u32> = vec![0, 1, 9, 10, 11, 49, 50, 51, 127, 128, 129, 4_224_281_215, 4_224_281_216, 4_224_281_217, u32::MAX];
     // truncation-shaped lengths: 2^k + d and m * 2^16 + d for small d (a classification that looks at a
